@@ -3,12 +3,13 @@
 
    Vocabulary (model/Softwrap.v, proofs/SoftwrapProofs.v):
    - a text is a list of cells = grapheme clusters with width (and style for rich text);
-   - plain_scan orc W input / rich_scan pairbrk W input: the lines emitted by the loop
+   - plain_scan orc W input / rich_scan pairbrk pairmust W input: the lines emitted by the loop
      `for scanner.Scan() {...}` of vxfw/text resp. vxfw/richtext, each paired with len(rest)
      after that Scan, and the outcome (Done / Hang / Miss);  cuts_of N lines = the numbers of cells
      consumed after each Scan;
    - orc i st = uniseg.FirstLineSegment(suffix at cluster i, state st) as (length, mustBreak, state),
-     pairbrk a b = "FirstLineSegmentInString(a+b,-1) leaves a rest": arbitrary functions (oracles);
+     pairbrk a b = "FirstLineSegmentInString(a+b,-1) leaves a rest", pairmust a b = its mustBreak
+     flag: arbitrary functions (oracles);
    - text_ok input W: 0 <= W < 65536, widths >= 0, total width < 65536 (the code adds in uint16;
      C16_width_bound_needed shows the bound cannot be dropped);
    - B: break opportunities, Hd: mandatory breaks, as positions in the text.
@@ -31,10 +32,10 @@ Print Assumptions C16_plain_scan_terminates.
 
 (* richtext.SoftwrapScanner over firstLineSegment: no hypothesis on the pairwise oracle at all *)
 Theorem C16_rich_scan_terminates :
-  forall (pairbrk : cell -> cell -> option bool) (is_space hasbreak : cell -> bool)
-         (residue : cell -> list cell) (W : Z) (input : list cell),
+  forall (pairbrk : cell -> cell -> option bool) (pairmust : cell -> cell -> bool)
+         (is_space hasbreak : cell -> bool) (residue : cell -> list cell) (W : Z) (input : list cell),
     0 <= W ->
-    snd (run unit (rich_segf hasbreak pairbrk) (fun s => s) is_space hasbreak residue W input tt) <> Hang.
+    snd (run unit (rich_segf hasbreak pairbrk pairmust) (fun s => s) is_space hasbreak residue W input tt) <> Hang.
 Proof. intros; apply rich_terminates; auto. Qed.
 Print Assumptions C16_rich_scan_terminates.
 
@@ -46,8 +47,8 @@ Proof. intros; apply plain_done; auto. Qed.
 Print Assumptions C16_plain_scan_done.
 
 Theorem C16_rich_scan_done :
-  forall pairbrk input W, text_ok input W -> (forall a b, pairbrk a b <> None) ->
-    snd (rich_scan pairbrk W input) = Done.
+  forall pairbrk pairmust input W, text_ok input W -> (forall a b, pairbrk a b <> None) ->
+    snd (rich_scan pairbrk pairmust W input) = Done.
 Proof. intros; apply rich_done; auto. Qed.
 Print Assumptions C16_rich_scan_done.
 
@@ -64,11 +65,11 @@ Proof. intros orc input W lines o He Ht Hc H. exact (proj1 (plain_lines orc inpu
 Print Assumptions C16_plain_line_fits.
 
 Theorem C16_rich_line_fits :
-  forall pairbrk input W lines o,
-    text_ok input W -> rich_scan pairbrk W input = (lines, o) ->
+  forall pairbrk pairmust input W lines o,
+    text_ok input W -> rich_scan pairbrk pairmust W input = (lines, o) ->
     forall l r, In (l, r) lines ->
       sumw (trim_right cell_is_space l) <= W \/ (length (trim_right cell_is_space l) <= 1)%nat.
-Proof. intros pairbrk input W lines o Ht H. exact (proj1 (rich_lines pairbrk input W Ht lines o H)). Qed.
+Proof. intros pairbrk pairmust input W lines o Ht H. exact (proj1 (rich_lines pairbrk pairmust input W Ht lines o H)). Qed.
 Print Assumptions C16_rich_line_fits.
 
 (* ---------------- conservation ---------------- *)
@@ -84,10 +85,10 @@ Print Assumptions C16_plain_conservation.
 
 (* rich text: the non-whitespace cells (grapheme, width and style) *)
 Theorem C16_rich_conservation :
-  forall pairbrk input W lines,
-    text_ok input W -> rich_scan pairbrk W input = (lines, Done) -> W <> 0 ->
+  forall pairbrk pairmust input W lines,
+    text_ok input W -> rich_scan pairbrk pairmust W input = (lines, Done) -> W <> 0 ->
     nonspace cell_is_space (concat (map fst lines)) = nonspace cell_is_space input.
-Proof. intros pairbrk input W lines Ht H HW. exact (proj2 (rich_lines pairbrk input W Ht lines Done H) eq_refl HW). Qed.
+Proof. intros pairbrk pairmust input W lines Ht H HW. exact (proj2 (rich_lines pairbrk pairmust input W Ht lines Done H) eq_refl HW). Qed.
 Print Assumptions C16_rich_conservation.
 
 (* ---------------- no_needless_split ---------------- *)
@@ -114,15 +115,15 @@ Print Assumptions C16_plain_no_needless_split.
 (* for rich text the break opportunities are those firstLineSegment derives from the pairwise
    oracle (rich_B); no hypothesis is needed *)
 Theorem C16_rich_no_needless_split :
-  forall pairbrk input W lines o,
-    text_ok input W -> rich_scan pairbrk W input = (lines, o) ->
+  forall pairbrk pairmust input W lines o,
+    text_ok input W -> rich_scan pairbrk pairmust W input = (lines, o) ->
     let B := rich_B cell_hasbreak pairbrk input in
     forall c, In c (cuts_of (length input) lines) -> c <> length input -> B c = false ->
     forall a e, (a < c < e)%nat -> (e <= length input)%nat ->
       (a = 0%nat \/ B a = true) -> (e = length input \/ B e = true) ->
       (forall q, (a < q < e)%nat -> B q = false) ->
       W < sumw (trim_right cell_is_space (sub input a e)).
-Proof. intros pairbrk input W lines o Ht H. exact (proj1 (rich_cuts pairbrk input W Ht lines o H)). Qed.
+Proof. intros pairbrk pairmust input W lines o Ht H. exact (proj1 (rich_cuts pairbrk pairmust input W Ht lines o H)). Qed.
 Print Assumptions C16_rich_no_needless_split.
 
 (* ---------------- hard_break_ends_line ---------------- *)
@@ -141,13 +142,14 @@ Proof.
 Qed.
 Print Assumptions C16_plain_hard_break_ends_line.
 
-(* rich text: after every cell that ends with a line break *)
+(* rich text: after every cell that ends with a line break (LF, CR), and at every break of a
+   neighbouring pair that uniseg reports as mandatory (VT, FF, NEL, LS, PS): rich_Hd *)
 Theorem C16_rich_hard_break_ends_line :
-  forall pairbrk input W lines,
-    text_ok input W -> rich_scan pairbrk W input = (lines, Done) -> W <> 0 ->
-    forall e, (0 < e <= length input)%nat -> rich_Hd cell_hasbreak input e = true ->
+  forall pairbrk pairmust input W lines,
+    text_ok input W -> rich_scan pairbrk pairmust W input = (lines, Done) -> W <> 0 ->
+    forall e, (0 < e <= length input)%nat -> rich_Hd cell_hasbreak pairbrk pairmust input e = true ->
       In e (cuts_of (length input) lines).
-Proof. intros pairbrk input W lines Ht H HW. exact (proj2 (rich_cuts pairbrk input W Ht lines Done H) eq_refl HW). Qed.
+Proof. intros pairbrk pairmust input W lines Ht H HW. exact (proj2 (rich_cuts pairbrk pairmust input W Ht lines Done H) eq_refl HW). Qed.
 Print Assumptions C16_rich_hard_break_ends_line.
 
 (* ---------------- the model satisfies the predicate the harness evaluates on observations ---------------- *)
@@ -162,11 +164,11 @@ Proof. intros; eapply plain_run_ok; eauto. Qed.
 Print Assumptions C16_plain_observation_ok.
 
 Theorem C16_rich_observation_ok :
-  forall pairbrk input W lines,
+  forall pairbrk pairmust input W lines,
     0 <= W < 65536 -> wok input -> sumw input < 65536 ->
-    rich_scan pairbrk W input = (lines, Done) ->
+    rich_scan pairbrk pairmust W input = (lines, Done) ->
     c16_ok_b cell_is_space (same_cells cell_is_space) (rich_B cell_hasbreak pairbrk input)
-             (rich_Hd cell_hasbreak input) W input lines = true.
+             (rich_Hd cell_hasbreak pairbrk pairmust input) W input lines = true.
 Proof. intros; eapply rich_run_ok; eauto. Qed.
 Print Assumptions C16_rich_observation_ok.
 
@@ -181,8 +183,8 @@ Print Assumptions C16_table_hypotheses.
 
 (* ---------------- width 0, hard wrap, the uint16 bound ---------------- *)
 Theorem C16_width0_emits_nothing :
-  forall orc pairbrk input,
-    plain_scan orc 0 input = ([], Done) /\ rich_scan pairbrk 0 input = ([], Done).
+  forall orc pairbrk pairmust input,
+    plain_scan orc 0 input = ([], Done) /\ rich_scan pairbrk pairmust 0 input = ([], Done).
 Proof. intros; split; apply run_width0. Qed.
 Print Assumptions C16_width0_emits_nothing.
 
